@@ -61,7 +61,7 @@ def run(ctx):
               extra_targets=["ZwVerif.Props.C10Closure"])
     h = zwcorr.Harness(ctx, secs=3)
     rng = ctx.rng
-    n = 500 if ctx.tier == "quick" else 15000
+    n = 300 if ctx.tier == "quick" else 5000
     progs = ["0 (1 add 3 mod)*", "0 (1 add 3 mod)+", "(0,1) (1 add 3 mod)*", "1 (?(3 ?lt) (1 add, 2 add))*",
              "0 ((1 add 4 mod)+)*", "0 (1 add 3 mod)+*", "0 (1 add 3 mod)*+", "0 (1 add 3 mod)**", "5 (drop)?",
              "(1,2) (3 add)?", "[0 (1 add 2 mod)*]"]
